@@ -17,8 +17,8 @@ META = {
     "C01": dict(tech="model-based stateful PBT (rapid state machine) with invariant + notification-replay oracle",
                 text="Generated histories of transfer/transferX/mint/burn/lock/newEpoch/tick by owners, strangers, a contract account and the Alphabet (committees of 1 and 3) run against the real Balance contract; after every invocation supply = sum of raw balances = totalSupply(), no negative balance, supply moves only by successful mint/burn, refused calls leave storage untouched, Transfer/TransferX come in equal pairs whose replay on the pre-state gives the post-state. Exploration is the right level: the statement is an invariant over all histories with a cheap executable oracle.",
                 ref="3/C01"),
-    "C02": dict(tech="model-based stateful PBT + bounded-exhaustive single-call matrix; oracle: debited accounts are a subset of authorisers",
-                text="Same generator as C01 plus an enumerated matrix (amount class x signer subset x from x to) of single transfers; for every transaction every account whose balance fell must have witnessed it, be the calling contract, or the Alphabet must have signed; transfer=false implies empty storage diff and no event.",
+    "C02": dict(tech="model-based stateful PBT + bounded-exhaustive single-call matrix; oracle: debited accounts are a subset of authorisers + ABI sweep + witness-scope enumeration",
+                text="Same generator as C01 plus an enumerated matrix (amount class x signer subset x from x to) of single transfers; for every transaction every account whose balance fell must have witnessed it, be the calling contract, or the Alphabet must have signed; transfer=false implies empty storage diff and no event. Also: an ABI sweep over every method of the compiled executable, and an enumerated group in which the holder's key is on the transaction with a witness scope that does not cover the Balance contract (None as sender or second signer, CalledByEntry through a forwarding contract): refused, nothing moves.",
                 ref="3/C02"),
     "C03": dict(tech="manifest-driven enumeration (method x signer class x committee size) with generated arguments; inert/succeeds oracle on a full storage+token snapshot diff",
                 text="Every method of every manifest compiled from the working tree is invoked under each signer class on committees of 1, 3 and 7 keys; negative classes must leave all contract storage, token balances and notifications untouched, the exactly-required class must succeed, safe methods must never modify state, verify accepts only Alphabet multisignatures.",
@@ -32,8 +32,8 @@ META = {
     "C06": dict(tech="model-based stateful PBT with probe subscriber contracts; epoch/snapshot/fan-out reference model",
                 text="Generated candidate changes, subscriptions (incl. duplicates, rejecting probes) and ticks with smaller/equal/+1/jump epochs, several transactions per block; success iff Alphabet-witnessed, growing and no subscriber rejects; publication in both formats, tick height, unchanged candidates, one call per subscriber in subscription order.",
                 ref="3/C06"),
-    "C07": dict(tech="model-based stateful PBT + exhaustive (operation x state value x list membership) matrix against a two-list state machine model",
-                text="Generated add/update/remove sequences over keys present in the legacy list, the structured list, both or neither, with all state values and signer subsets; netmapCandidates/listCandidates and notifications must match the model after every step.",
+    "C07": dict(tech="model-based stateful PBT + exhaustive (operation x state value x list membership) matrix against a two-list state machine model + witness-scope enumeration",
+                text="Generated add/update/remove sequences over keys present in the legacy list, the structured list, both or neither, with all state values and signer subsets; netmapCandidates/listCandidates and notifications must match the model after every step. Also an enumerated group in which the node's key is on the transaction with a scope that does not cover Netmap (None, CustomContracts elsewhere) next to the Alphabet: refused, lists unchanged.",
                 ref="3/C07"),
     "C08": dict(tech="bounded-exhaustive enumeration of (old count, new count, elapsed epochs) + random longer histories against a retained-epochs history model over three read paths",
                 text="For every resize in the bounded scope and random double resizes, snapshot(d), snapshotByEpoch(e) and listNodes(e) must return exactly the published map for retained epochs and nothing otherwise, and the next tick must succeed.",
@@ -56,23 +56,23 @@ META = {
     "C14": dict(tech="model-based stateful PBT of roster histories + generated signature matrices against a reference verifier (REP distinct members)",
                 text="Roster histories with batches crossing counter boundaries 127/255/256 and re-commits; signature matrices from member/non-member/duplicate/wrong-message/malleated signatures; contract true implies reference true, honest matrices are accepted, submitObjectPut follows.",
                 ref="3/C14"),
-    "C15": dict(tech="exhaustive differential re-translation of all 11 contracts (NEF, manifest, binding text) + generated differential execution embedded-vs-fresh + generated binding calls",
-                text="All shipped artefacts are regenerated with the pinned compiler and compared byte for byte; embedded and fresh executables are run on twin chains with generated call histories; every binding method is called against a recording invoker checked against the manifest.",
+    "C15": dict(tech="exhaustive differential re-translation of all 11 contracts (NEF, manifest, binding text) + generated differential execution embedded-vs-fresh + generated binding calls; chain-backed decoding of every generated reader method",
+                text="All shipped artefacts are regenerated with the pinned compiler and compared byte for byte; embedded and fresh executables are run on twin chains with generated call histories; every binding method is called against a recording invoker checked against the manifest. A chain-backed invoker additionally runs every reader method of every generated binding against the contracts of the working tree: whatever the contract answers (HALT, non-null) the reader must decode, scalar results must equal the stack item.",
                 ref="3/C15", level="translation_validation"),
     "C16": dict(tech="generated version numbers x signer sets x synthetic legacy storages (stub-upgrade) and mutated recorded dumps; oracle: read API before = read API after",
                 text="update is attempted with every signer class and version around both bounds; legacy layouts generated from a logical model are installed under a stub, upgraded to the working-tree contract and read back through the new read API.",
                 ref="3/C16"),
     "C17": dict(tech="bounded-exhaustive vote sequences + model-based stateful PBT against a ballot reference model",
-                text="Non-notary NeoFS contract with n = 1..7 keys: generated and exhaustively enumerated vote sequences by members and strangers over two ids with block gaps around the 20-block window; the effect must happen exactly once, in the invocation reaching floor(2n/3)+1 distinct voters.",
+                text="Non-notary NeoFS contract with n = 1..7 keys: generated and exhaustively enumerated vote sequences by members and strangers over two ids with block gaps around the 20-block window; the effect must happen exactly once, in the invocation reaching floor(2n/3)+1 distinct voters. Further enumerated groups: proposed Alphabet lists of other sizes, interplay of concurrent ballots incl. a re-entering payee, witness scopes of the voters, and cheques the contract cannot pay when the completing vote arrives (must fail as a whole and complete later).",
                 ref="3/C17"),
     "C18": dict(tech="bounded-exhaustive strings over a reduced alphabet + structured mutations + random strings against independent reference grammars (differential acceptance)",
-                text="isAvailable/register/registerTLD/addRecord/setRecord must accept exactly what independent reference predicates for names, A, AAAA, CNAME and TXT accept; rejected inputs must leave storage unchanged.",
+                text="isAvailable/register/registerTLD/addRecord/setRecord must accept exactly what independent reference predicates for names, A, AAAA, CNAME and TXT accept; rejected inputs must leave storage unchanged. An enumerated group registers a chain of three 63-byte parents and probes every total length 197..259 (accepted iff at most 255 bytes).",
                 ref="3/C18"),
     "C19": dict(tech="model-based stateful PBT against an exact GAS ledger; enumerated emit arithmetic over balance boundaries x Inner Ring sizes",
                 text="Main chain deposits/withdrawals/cheques/candidate fees and FS chain emit are replayed against an exact GAS ledger of all parties (fees isolated on a separate payer); foreign-token probes must be refused.",
                 ref="3/C19"),
     "C20": dict(tech="model-based stateful PBT against exact-store models over prefix-related epochs and ids",
-                text="Generated multisets of puts over epochs whose encodings are prefixes of one another, interleaved with ticks and removals, for Reputation, Audit, container size estimations, NeoFSID and the configuration maps; every listing/getter must return exactly what was put and not yet cleaned.",
+                text="Generated multisets of puts over epochs whose encodings are prefixes of one another, interleaved with ticks and removals, for Reputation, Audit, container size estimations, NeoFSID and the configuration maps; every listing/getter must return exactly what was put and not yet cleaned. An enumerated group puts 126..260 values under one Reputation id (per-id counter beyond one byte).",
                 ref="3/C20"),
 }
 
